@@ -64,6 +64,9 @@ pub fn drive(args: &HashMap<String, String>) {
         progs.push(p);
     }
     // ModLadder: the parameter reaches the result through a nested (mod ..) or a function used as a value
+    for (p, _) in crate::p_compile::rec_ladder(true) {
+        progs.push(p);
+    }
     for (p, _) in crate::p_compile::mod_ladder() {
         progs.push(p.rename_vars(&lower));
     }
@@ -100,7 +103,7 @@ pub fn drive(args: &HashMap<String, String>) {
             let mut pairs = vec![];
             let mut envs = vec![];
             for k in 0..npairs {
-                let mut val: BTreeMap<String, V> = names.iter().map(|nm| (nm.clone(), if nm == "pprog" { V::int(2) } else { g.value_for(&Pat::Var(nm.clone())) })).collect();
+                let mut val: BTreeMap<String, V> = names.iter().map(|nm| (nm.clone(), if nm == "pprog" { V::int(2) } else if nm == "plist" { V::list(&(0..(2 + k % 3)).map(|j| V::int(1 + j as i64)).collect::<Vec<_>>()) } else { g.value_for(&Pat::Var(nm.clone())) })).collect();
                 let alt = match k % 4 {
                     0 => V::cons(V::int(1), V::int(2)),
                     1 => V::nil(),
